@@ -315,15 +315,19 @@ Definition run_sgpr
   match inv_checked m (mat m m Kzz) with
   | None => [0%Z]
   | Some Kzzi =>
-    let Q := mat n n (@nystrom QcF m Kxz Kzzi Kxz) in
-    match inv_checked m (mat m m (@sgpr_sigma_arg QcF n m Kzz Kxz Di)),
-          inv_checked n (mat n n (madd Q (@mdiag QcF nz))) with
+    (* [mat] only materialises intermediate products (identity up to meq, Exec.mat_meq) *)
+    let Q := mat n n (mmul m Kxz (mat m n (mmul m Kzzi (mT Kxz)))) in   (* = nystrom m Kxz Kzzi Kxz *)
+    let A := mat n n (madd Q (@mdiag QcF nz)) in
+    match inv_checked m (mat m m (@sgpr_sigma_arg QcF n m Kzz Kxz Di)), inv_checked n A with
     | Some Sigma, Some Ainv =>
+        let w := mat m 1 (mmul n (mT Kxz) (mat n 1 (mmul n Di R))) in
+        let SigKzs := mat m t (mmul m Sigma (mT Ksz)) in
+        let KzziKzs := mat m t (mmul m Kzzi (mT Ksz)) in
         1%Z :: ser_mat n n Q
-          ++ ser_mat t 1 (@sgpr_textbook_mean QcF n m Ksz Sigma Kxz Di R Ms)
-          ++ ser_mat t t (@sgpr_textbook_cov QcF m Kss Ksz Kzzi Sigma)
-          ++ ser_qc (@mmul QcF n (mT R) (mmul n Ainv R) O O)
-          ++ ser_qc (@det QcF n (madd Q (@mdiag QcF nz)))
+          ++ ser_mat t 1 (madd (mmul m Ksz (mat m 1 (mmul m Sigma w))) Ms)
+          ++ ser_mat t t (madd (msub Kss (mmul m Ksz KzziKzs)) (mmul m Ksz SigKzs))
+          ++ ser_qc (@mmul QcF n (mT R) (mat n 1 (mmul n Ainv R)) O O)
+          ++ ser_qc (@det QcF n A)
           ++ ser_qc (@titsias_added_loss QcF n (fun i => nth i kxd 0%Qc) Q nz)
     | _, _ => [0%Z]
     end
